@@ -112,6 +112,9 @@ def transpile_token(
                 after_char = next(iterator, "")
                 if after_char == "`":
                     temp += "`"
+                elif after_char == "":
+                    # a lone backslash at the very end of the literal
+                    temp += "\\\\"
                 else:
                     temp += "\\" + after_char
             elif char == '"':
